@@ -57,7 +57,7 @@ PROPS["C13"] = {
                   "(stack_client_one_status, stack_client_status_first, stack_levels_truthful, stack_head_no_body); exhaustive and "
                   "random two-level sessions over all four method pairs are compared on every run.",
     "level_note": "Trusted: Lean kernel; the model is hand-written and tied by differential testing only; hooks are observers; codes 100..999.",
-    "props_modules": ["Flamego.Props.C13", "Flamego.Props.C13Nest"],
+    "props_modules": ["Flamego.Props.C13", "Flamego.Props.C13Nest", "Flamego.Props.C13Late"],
     "suite": "C13",
     "stats": generic_stats(_c13_nontrivial,
         "sessions = operation sequences on one responseWriter (exhaustive to a depth over a 9-op alphabet for GET and HEAD, "
